@@ -473,6 +473,44 @@ def main21(tag, outdir):
         open(os.path.join(outdir, aid + ".txt"), "w").write(out)
         print(aid, len(out))
 
+# wave 22: arithmetic refactors (types, widths, order of operations, overflow checks) that are exact except at an extreme
+ARITH22 = [
+ ("Q01", "programs/whirlpool/src/math/swap_math.rs (compute_swap and its helpers)"),
+ ("Q02", "programs/whirlpool/src/math/token_math.rs (get_amount_delta_a/b, get_next_sqrt_price_*, the fee helpers)"),
+ ("Q03", "programs/whirlpool/src/math/tick_math.rs (sqrt_price_from_tick_index, tick_index_from_sqrt_price)"),
+ ("Q04", "programs/whirlpool/src/math/u256_math.rs and bit_math.rs (U256Muldiv, checked_mul_div, checked_mul_shift_right and friends)"),
+ ("Q05", "programs/whirlpool/src/math/liquidity_math.rs and the liquidity / growth arithmetic in manager/tick_manager.rs, manager/position_manager.rs, manager/whirlpool_manager.rs"),
+ ("Q06", "programs/whirlpool/src/manager/fee_rate_manager.rs and state/oracle.rs (adaptive-fee arithmetic)"),
+ ("Q07", "programs/whirlpool/src/util/v2/token.rs and util/v2/swap_utils.rs (transfer-fee arithmetic: included / excluded amounts, caps)"),
+ ("Q08", "rust-sdk/core/src/math/token.rs and math/bundle.rs, math/position.rs (SDK amount and position arithmetic)"),
+ ("Q09", "rust-sdk/core/src/math/tick.rs, math/tick_array.rs, math/price.rs (SDK tick and price arithmetic)"),
+ ("Q10", "rust-sdk/core/src/quote/liquidity.rs and quote/swap.rs, math/adaptive_fee.rs (SDK quote arithmetic)"),
+]
+
+def main22(tag, outdir):
+    os.makedirs(outdir, exist_ok=True)
+    root = os.path.dirname(os.path.dirname(os.path.abspath(__file__)))
+    brief = open(os.path.join(root, "notes/SEED_BRIEF.md")).read().split("\n---\n", 1)[1]
+    props = [json.loads(l) for l in open(os.path.join(root, "properties.jsonl"))]
+    plist = "\n".join(f"* {p['id']} — {p['title']}. {p['statement']}" for p in props)
+    for aid, area in ARITH22:
+        d = f"/tmp/{tag}_{aid}"
+        text = ("This time you are not given one property but a PIECE OF ARITHMETIC. The repository is expected to satisfy all of the "
+                "following properties (each must hold for every input, history and configuration):\n\n" + plist +
+                "\n\nYour piece:\n  - " + area +
+                "\n\nWrite an ARITHMETIC REFACTOR of it - a different integer type or width for an intermediate value, a cast moved before or after an operation, a "
+                "checked operation replaced by a cheaper test plus an unchecked one, two operations reordered or fused, a division replaced by a shift or a multiplication "
+                "by a reciprocal, a clamp moved - that a reviewer would wave through and that gives EXACTLY the old result except on a thin set of inputs (a boundary of an "
+                "intermediate value, a particular bit length, a remainder of exactly zero, an operand at the end of its range), where it breaks one of the properties above. "
+                "Pick whichever property your change breaks, and say which one in meta.json (\"property\": \"Cxx\"). The wrong inputs must be REACHABLE: say in demo.md "
+                "which instruction arguments or pool state produce them.")
+        out = (brief.replace("{dir}", d).replace("{property}", text).replace("{used}", "(about 330 earlier changes exist; several move an overflow test or narrow a product - find a DIFFERENT intermediate value or boundary than the obvious ones: 2^64, 2^128, 2^192 of the main products have been used)")
+               .replace("{steer}", "Characterise the set of inputs on which old and new code differ as precisely as you can (ideally with an exhaustive or randomised differential run of old against new, kept out of the repository), and put that characterisation in demo.md.")
+               .replace("{id}", "Cxx"))
+        out = out.replace("Earlier changes written against this property are listed here", "Earlier changes")
+        open(os.path.join(outdir, aid + ".txt"), "w").write(out)
+        print(aid, len(out))
+
 def main():
     tag, outdir = sys.argv[1], sys.argv[2]
     if tag.startswith("seed17"):
@@ -485,6 +523,8 @@ def main():
         return main20(tag, outdir)
     if tag.startswith("seed21"):
         return main21(tag, outdir)
+    if tag.startswith("seed22"):
+        return main22(tag, outdir)
     if tag.startswith("seed14") or tag.startswith("seed15") or tag.startswith("seed16"):
         return main14(tag, outdir)
     if tag.startswith("seed13"):
